@@ -194,8 +194,74 @@ func (g *Gen) actorsAct() {
 			}
 		}
 	}
+	if g.faults["multimsg"] && g.chance(0.15) {
+		g.multiMsgAct()
+	}
 	// providers watch for requests every block
 	g.providersAct()
+}
+
+// multiMsgAct: F6b — several messages in one transaction; a failing later message must undo the earlier ones.
+func (g *Gen) multiMsgAct() {
+	svcs := g.definedSvcs()
+	binds := g.allBindings()
+	switch g.pick(5) {
+	case 0:
+		if len(svcs) > 0 && len(binds) > 0 {
+			c := pickInt(g, g.consumers)
+			b := binds[g.pick(len(binds))]
+			m := MsgOp{T: "call", Svc: b.ServiceName, Providers: []string{refOfAddr(g, b.Provider)}, Input: goodInput, FeeCap: "2000stake", Timeout: 1 + int64(g.pick(int(minI64(g.x.cur.Params.MaxRequestTimeout, 3))))}
+			m2 := m
+			m2.Repeated, m2.Total = true, 2
+			msgs := []MsgOp{m, m2}
+			if g.chance(0.4) {
+				msgs = append(msgs, MsgOp{T: "pause", Ctx: "x:" + strings.Repeat("00", 40)}) // fails: unknown context
+			}
+			g.submit(g.tx(c, msgs...), 0)
+		}
+	case 1:
+		if len(binds) > 0 {
+			b := binds[g.pick(len(binds))]
+			if o := g.acctIndex(b.Owner); o >= 0 {
+				ref := refOfAddr(g, b.Provider)
+				msgs := []MsgOp{{T: "update", Svc: b.ServiceName, Prov: ref, Deposit: fmt.Sprintf("%dstake", 1+g.pick(20)), Options: "{}"}, {T: "disable", Svc: b.ServiceName, Prov: ref}}
+				if g.chance(0.5) {
+					msgs = append(msgs, MsgOp{T: "refund", Svc: b.ServiceName, Prov: ref}) // usually too early: fails, all undone
+				}
+				g.submit(g.tx(o, msgs...), 0)
+			}
+		}
+	case 2:
+		o := pickInt(g, g.owners)
+		g.submit(g.tx(o, MsgOp{T: "setwd", To: acctRef(g.pick(g.cfg.NAccounts))}, MsgOp{T: "withdraw"}), 0)
+	case 3:
+		// a provider answers two requests in one tx; the second may be stale
+		s := g.x.cur
+		byProv := map[int][]string{}
+		for _, rid := range sortedBoolKeys(s.Active15) {
+			if q, ok := s.Req[rid]; ok {
+				if pi := g.acctIndex(q.Provider); pi >= 0 {
+					byProv[pi] = append(byProv[pi], rid)
+				}
+			}
+		}
+		for pi := 0; pi < g.cfg.NAccounts; pi++ {
+			if l := byProv[pi]; len(l) >= 2 {
+				g.submit(g.tx(pi, MsgOp{T: "respond", Req: "x:" + l[0], Result: okResult, Output: goodOutput}, MsgOp{T: "respond", Req: "x:" + l[1], Result: okResult, Output: pickStr(g, []string{goodOutput, badOutput})}), g.pick(2))
+				break
+			}
+		}
+	case 4:
+		if len(svcs) > 0 {
+			o := pickInt(g, g.owners)
+			svc := pickStr(g, svcs)
+			pricing := `{"price":"1stake"}`
+			min := g.curMinDeposit(pricing)
+			p1, p2 := pickStr(g, g.allProviderRefs()), pickStr(g, g.allProviderRefs())
+			g.submit(g.tx(o, MsgOp{T: "bind", Svc: svc, Prov: p1, Deposit: fmt.Sprintf("%dstake", min), Pricing: pricing, QoS: 1, Options: "{}"},
+				MsgOp{T: "bind", Svc: svc, Prov: p2, Deposit: fmt.Sprintf("%dstake", min), Pricing: pricing, QoS: 1, Options: "{}"}), 0)
+		}
+	}
 }
 
 func (g *Gen) weighted(w []float64) int {
